@@ -77,6 +77,9 @@ fn main() {
         i += 2;
     }
     panicmon::install();
+    let limit_s = std::env::var("VERIF_CALL_TIMEOUT_S").ok().and_then(|v| v.parse().ok()).unwrap_or(90);
+    let rss_mb = std::env::var("VERIF_RSS_LIMIT_MB").ok().and_then(|v| v.parse().ok()).unwrap_or(16_000);
+    panicmon::start_watchdog(if a.out.is_empty() { "/verif/.scratch/noout".into() } else { a.out.clone() }, limit_s, rss_mb);
     let t0 = std::time::Instant::now();
     let run = props::dispatch(&a);
     cfg::cleanup_scratch_base();
